@@ -1,11 +1,13 @@
 (* C12_Model.v — control skeletons of the correction classes under a fault pattern.
 
    Transcribed (HEAD of /repo):
-     KFCorrection::correctStep / getLikelihood            KFCorrection.cpp:31-119
-     UKFCorrection::correctStep / getLikelihood           UKFCorrection.cpp:64-160   (generic and additive ctor)
+     KFCorrection::correctStep / getLikelihood            KFCorrection.cpp:31-122
+     UKFCorrection::correctStep / getLikelihood           UKFCorrection.cpp:64-163   (generic and additive ctor)
      sigma_point::unscented_transform, base + the two measurement overloads
-                                                          sigma_point.cpp:125-203, 258-314
-     SUKFCorrection::correctStep / getLikelihood          SUKFCorrection.cpp:48-190
+                                                          sigma_point.cpp:125-203, 258-318
+     SUKFCorrection::correctStep / getLikelihood          SUKFCorrection.cpp:48-193
+   (HEAD includes the repairs 201e1b4 and 49d7ed0; the transcription of the
+   code before them is kept in C12_Regress.v)
      GaussianLikelihood::likelihood                       GaussianLikelihood.cpp:25-75
      BootstrapCorrection::correctStep / getLikelihood     BootstrapCorrection.cpp:50-64
      GPFCorrection::correctStep / getLikelihood           GPFCorrection.cpp:92-130
@@ -94,6 +96,13 @@ Definition inject (p : pattern) (mm : mmodel) : mmodel :=
 Record result (B S : Type) := mkRes { r_out : B; r_st : S; r_log : list site }.
 Arguments mkRes {B S}. Arguments r_out {B S}. Arguments r_st {B S}. Arguments r_log {B S}.
 
+(* GaussianCorrection::correct / PFCorrection::correct (GaussianCorrection.cpp:16-23,
+   PFCorrection.cpp:14-21): the step is run unless skip_ is set (C13's subject);
+   a skipped correction makes no call at all *)
+Definition correct_wrapper {B S : Type} (skip : bool) (step : B -> B -> S -> result B S)
+           (pred out : B) (st : S) : result B S :=
+  if skip then mkRes pred st [] else step pred out st.
+
 (* ------------------------------------------------------------------ *)
 (* KFCorrection *)
 Variable kf_px : G -> X.                        (* pred_state.mean() *)
@@ -106,21 +115,23 @@ Variable kf_lik : NU -> PY -> LK.               (* the loop of getLikelihood *)
 (* innovations_ (None = the 0 x 0 matrix of a fresh object) and meas_covariances_ *)
 Record kf_state := mkKfSt { kf_innov : option NU; kf_py : PY }.
 
-Definition kf_step (mm : mmodel) (pred out : G) (st : kf_state) : result G kf_state :=
+Definition kf_step (mm : mmodel) (pred out : G) (st0 : kf_state) : result G kf_state :=
+  (* :48-49 innovations_.resize(0, 0): no likelihood until this correction has used a measurement *)
+  let st := mkKfSt None (kf_py st0) in
   match mm_measure mm with
-  | None => mkRes pred st [Measure]                                   (* :53-57 *)
+  | None => mkRes pred st [Measure]                                   (* :56-60 *)
   | Some y =>
     match mm_predicted mm (kf_px pred) with
-    | None => mkRes pred st [Measure; Predicted]                      (* :64-68 *)
+    | None => mkRes pred st [Measure; Predicted]                      (* :67-71 *)
     | Some yp =>
       match mm_innovation mm yp y with
-      | None => mkRes pred st [Measure; Predicted; Innovation]        (* :75-79 *)
+      | None => mkRes pred st [Measure; Predicted; Innovation]        (* :78-82 *)
       | Some nu =>
         let '(okR, R) := mm_noisecov mm in
         if okR then
           let '(g, py) := kf_upd pred nu R out in
           mkRes g (mkKfSt (Some nu) py) [Measure; Predicted; Innovation; NoiseCov]
-        else mkRes pred st [Measure; Predicted; Innovation; NoiseCov] (* :85-89 *)
+        else mkRes pred st [Measure; Predicted; Innovation; NoiseCov] (* :88-92 *)
       end
     end
   end.
@@ -148,12 +159,14 @@ Definition ut_base (mm : mmodel) (input : G) : bool * PM * PXY :=
 Definition ut_generic (mm : mmodel) (input : G) : bool * PM * PXY * list site :=
   (ut_base mm input, [Predicted]).
 
-(* AdditiveMeasurementModel overload (:285-314): getNoiseCovarianceMatrix is
-   called and the output post-processed whether or not the evaluation was
-   valid; its flag is ignored *)
+(* AdditiveMeasurementModel overload (:285-318): returns before any
+   post-processing when the evaluation failed (:306-308); otherwise
+   getNoiseCovarianceMatrix is called (flag ignored) and added to every
+   output covariance *)
 Definition ut_additive (mm : mmodel) (input : G) : bool * PM * PXY * list site :=
   let '(valid, pm, pxy) := ut_base mm input in
-  (valid, pm_add_noise pm (snd (mm_noisecov mm)), pxy, [Predicted; NoiseCov]).
+  if valid then (true, pm_add_noise pm (snd (mm_noisecov mm)), pxy, [Predicted; NoiseCov])
+  else (false, pm, pxy, [Predicted]).
 
 (* ------------------------------------------------------------------ *)
 (* UKFCorrection *)
@@ -165,8 +178,9 @@ Variable ukf_lik : NU -> PM -> LK.
 Record ukf_state := mkUkfSt { u_innov : option NU; u_pm : PM }.
 
 Definition ukf_step (additive : bool) (mm : mmodel) (pred out : G) (st : ukf_state) : result G ukf_state :=
+  (* :88-89 innovations_.resize(0, 0) on entry: every early return leaves u_innov = None *)
   match mm_measure mm with
-  | None => mkRes pred st [Measure]                                   (* :74-78 *)
+  | None => mkRes pred (mkUkfSt None (u_pm st)) [Measure]             (* :77-81 *)
   | Some y =>
     (* predicted_meas_ is assigned from the transform's result even when invalid (:98, :102) *)
     let '(valid, pm, pxy, l) :=
@@ -176,10 +190,10 @@ Definition ukf_step (additive : bool) (mm : mmodel) (pred out : G) (st : ukf_sta
     in
     if valid then
       match mm_innovation mm (pm_mean pm) y with
-      | None => mkRes pred (mkUkfSt (u_innov st) pm) (Measure :: l ++ [Innovation])   (* :121-125 *)
+      | None => mkRes pred (mkUkfSt None pm) (Measure :: l ++ [Innovation])   (* :124-128 *)
       | Some nu => mkRes (ukf_upd pred pm pxy nu out) (mkUkfSt (Some nu) pm) (Measure :: l ++ [Innovation])
       end
-    else mkRes pred (mkUkfSt (u_innov st) pm) (Measure :: l)          (* :105-109 *)
+    else mkRes pred (mkUkfSt None pm) (Measure :: l)                  (* :108-112 *)
   end.
 
 Definition ukf_get_lik (st : ukf_state) : option LK :=
@@ -198,8 +212,10 @@ Variable sukf_lik : NU -> YP -> RC -> LK.
 (* innovations_, propagated_sigma_points_ (None = 0 x 0) *)
 Record sukf_state := mkSukfSt { s_innov : option NU; s_prop : option YP }.
 
-Definition sukf_step (sub_ok : bool) (ncalls : nat) (mm : mmodel) (pred out : G) (st : sukf_state)
+Definition sukf_step (sub_ok : bool) (ncalls : nat) (mm : mmodel) (pred out : G) (st0 : sukf_state)
   : result G sukf_state :=
+  (* :79-80 innovations_.resize(0, 0) on entry *)
+  let st := mkSukfSt None (s_prop st0) in
   match mm_measure mm, sub_ok with
   | Some y, true =>
     let sp := sigma_of pred in
@@ -208,7 +224,7 @@ Definition sukf_step (sub_ok : bool) (ncalls : nat) (mm : mmodel) (pred out : G)
     | Some yp =>
       (* :111 propagated_sigma_points_ is overwritten before the innovation is known *)
       match mm_innovation mm (sukf_pred_mean yp) y with
-      | None => mkRes pred (mkSukfSt (s_innov st) (Some yp)) [Measure; Predicted; Innovation]  (* :129-133 *)
+      | None => mkRes pred (mkSukfSt None (Some yp)) [Measure; Predicted; Innovation]  (* :132-136 *)
       | Some nu =>
         let '(g, yp') := sukf_upd pred sp yp nu (snd (mm_noisecov mm)) out in
         mkRes g (mkSukfSt (Some nu) (Some yp')) ([Measure; Predicted; Innovation] ++ repeat NoiseCov ncalls)
@@ -352,6 +368,7 @@ Arguments mkSukfSt {YP NU}. Arguments s_innov {YP NU}. Arguments s_prop {YP NU}.
 Arguments mkPfSt {LK}. Arguments pf_valid {LK}. Arguments pf_lik {LK}.
 Arguments LGauss {St LK}. Arguments LCustom {St LK}.
 Arguments mkGpfSt {LK RNG GS}. Arguments g_pf {LK RNG GS}. Arguments g_inner {LK RNG GS}. Arguments g_rng {LK RNG GS}.
+Arguments correct_wrapper {B S}.
 Arguments kf_step {G Y X YP NU RC PY}. Arguments kf_get_lik {NU PY LK}.
 Arguments ut_base {G Y X YP NU RC PM PXY}. Arguments ut_generic {G Y X YP NU RC PM PXY}.
 Arguments ut_additive {G Y X YP NU RC PM PXY}.
